@@ -49,9 +49,25 @@ pub struct Case {
     pub source_override: Option<String>,
     /// corpus runs: the fixture (file name under tests/data) the test was taken from
     pub dig_file: Option<String>,
+    /// F27: the caller is a multi-threaded program. `None`: everything happens on one OS
+    /// thread. `Some(s)`: the parse, the static iteration and every single action of the
+    /// schedule (`try_iter`, each `next()`, each `vars()`) is executed on one of three OS
+    /// threads chosen by `mix(s, action index, step)`; the threads are released one at a time
+    /// (the caller's thread blocks until the action has returned), so the choice of who
+    /// runs is the schedule's and the execution stays a pure function of the case.
+    pub thread_seed: Option<u64>,
 }
 
 impl Case {
+    /// which OS thread (0 = the caller's own, 1 and 2 = helper threads) executes the action
+    /// identified by `what` (schedule position or a fixed code) and `step`
+    pub fn thread_for(&self, what: u64, step: u64) -> usize {
+        match self.thread_seed {
+            None => 0,
+            Some(s) => (mix(&[s, what, step]) % 3) as usize,
+        }
+    }
+
     pub fn inspects(&self, step: usize) -> bool {
         match self.inspect {
             None => false,
@@ -104,6 +120,13 @@ impl Case {
                 "dig_file",
                 match &self.dig_file {
                     Some(s) => J::s(s.clone()),
+                    None => J::Null,
+                },
+            )
+            .set(
+                "thread_seed",
+                match self.thread_seed {
+                    Some(s) => J::i(s),
                     None => J::Null,
                 },
             )
@@ -173,6 +196,10 @@ impl Case {
             continue_after_error: match j.get("continue_after_error") {
                 Some(b) => b.as_bool()?,
                 None => false,
+            },
+            thread_seed: match j.get("thread_seed") {
+                Some(J::Null) | None => None,
+                Some(v) => Some(v.as_u64()?),
             },
             dig_file: match j.get("dig_file") {
                 Some(J::Str(s)) => Some(s.clone()),
